@@ -74,6 +74,22 @@ class _Modules:
         return None, None
 
 
+_MAPPING_MIXIN = {f_.name: f_ for f_ in ast.parse('''
+def get(self, key, default=None):
+    try:
+        return self[key]
+    except KeyError:
+        return default
+
+def setdefault(self, key, default=None):
+    try:
+        return self[key]
+    except KeyError:
+        self[key] = default
+    return default
+''').body}
+
+
 class Key:
     """a key symbol: (equivalence class, spelling)"""
     __slots__ = ('cls', 'spelling')
@@ -405,11 +421,49 @@ class Heap:
                 fn = self.module.method(o['__class__'], node.id)
                 if fn is not None:
                     return Closure(fn.node, {}, ref, fn.cls)
+        if o['__class__'] in self.module.classes and attr in _MAPPING_MIXIN and self.is_abc_mapping(o['__class__']):
+            # a method the class inherits from collections.abc.Mapping / MutableMapping: the mixin's definition in terms of the
+            # class's own __getitem__ / __setitem__
+            return Closure(_MAPPING_MIXIN[attr], {}, ref, o['__class__'])
         if o['__class__'] in self.module.classes and not attr.startswith('#') and self.never_has(o['__class__'], attr):
             # no class of the object's hierarchy defines, stores or declares (__slots__) an attribute of that name, and all its base
             # classes are classes of the analysed modules (or object): the look-up raises AttributeError
             raise Raised('AttributeError', self.version, 0)
         raise AnalysisError('heap model: %s has no attribute %s' % (o['__class__'], attr))
+
+    def is_abc_mapping(self, cname):
+        """the class defines __getitem__ and every base outside the analysed modules is (an alias, under every module-level
+        assignment of that alias, of) typing / collections.abc Mapping or MutableMapping, and there is at least one"""
+        cache = self.__dict__.setdefault('abc_mapping_cache', {})
+        if cname in cache:
+            return cache[cname]
+        mods = self.module.mods if hasattr(self.module, 'mods') else [self.module]
+
+        def ends_in_mapping(b, depth=0):
+            if isinstance(b, ast.Subscript):
+                b = b.value
+            if isinstance(b, ast.Attribute):
+                return b.attr in ('Mapping', 'MutableMapping')
+            if not isinstance(b, ast.Name) or depth > 4:
+                return False
+            if b.id in ('Mapping', 'MutableMapping'):
+                return True
+            alts = [st_.value for m_ in mods for st_ in ast.walk(getattr(m_, 'tree', None) or ast.Module(body=[], type_ignores=[]))
+                    if isinstance(st_, ast.Assign) and len(st_.targets) == 1 and isinstance(st_.targets[0], ast.Name) and st_.targets[0].id == b.id]
+            return bool(alts) and all(ends_in_mapping(a_, depth + 1) for a_ in alts)
+        found, ok = 0, self.module.method(cname, '__getitem__') is not None
+        for c_ in self.module.mro(cname):
+            for b_ in self.module.classes[c_].bases:
+                bn_ = b_.value if isinstance(b_, ast.Subscript) else b_
+                nm_ = bn_.id if isinstance(bn_, ast.Name) else bn_.attr if isinstance(bn_, ast.Attribute) else None
+                if nm_ in self.module.classes or nm_ in ('object', 'Generic'):
+                    continue
+                if ends_in_mapping(b_):
+                    found += 1
+                else:
+                    ok = False
+        cache[cname] = ok and found > 0
+        return cache[cname]
 
     def never_has(self, cname, attr):
         cache = self.__dict__.setdefault('never_has_cache', {})
@@ -979,6 +1033,11 @@ class Interp:
                     # NAME = ClassOfTheModules(...) at module level (a constant object: an interpretation, a formatter): made once
                     mv_[e.id] = self.ev(node_, {}, None)
                     return mv_[e.id]
+                if isinstance(node_, ast.Call) and isinstance(node_.func, ast.Name) and node_.func.id == 'object' and not node_.args and not node_.keywords \
+                        and 'object' not in h.hooks:
+                    # NAME = object() at module level (a private marker): one object, identical to itself only
+                    mv_[e.id] = h.alloc('object', {})
+                    return mv_[e.id]
                 if isinstance(node_, ast.Call) and isinstance(node_.func, ast.Name) and not node_.func.id[:1].isupper():
                     fac_ = None
                     for m2_ in (h.module.mods if hasattr(h.module, 'mods') else [h.module]):
@@ -1198,6 +1257,9 @@ class Interp:
             return self.ev(e.body if self.truth(self.ev(e.test, env, cls)) else e.orelse, env, cls)
         if isinstance(e, ast.BinOp) and isinstance(e.op, (ast.Add, ast.Sub)):
             l, r = self.ev(e.left, env, cls), self.ev(e.right, env, cls)
+            if isinstance(e.op, ast.Add) and (isinstance(l, Key) or isinstance(r, Key)) and isinstance(l, (Key, str, SStr)) and isinstance(r, (Key, str, SStr)):
+                # (a case-insensitive string is its spelling: str.__add__ gives a plain text)
+                l, r = (l.spelling if isinstance(l, Key) else l), (r.spelling if isinstance(r, Key) else r)
             if isinstance(l, int) and isinstance(r, int):
                 return l + r if isinstance(e.op, ast.Add) else l - r
             if isinstance(e.op, ast.Add) and (isinstance(l, SStr) or isinstance(r, SStr)) and isinstance(l, (SStr, str)) and isinstance(r, (SStr, str)):
@@ -2584,8 +2646,8 @@ class Interp:
             sub_ = ast.Subscript(value=ast.Name(id='#a0', ctx=ast.Load()), slice=ast.Name(id='#k', ctx=ast.Load()), ctx=ast.Load())
             return self.ev(ast.fix_missing_locations(sub_), {'#a0': args[0], '#k': f[1]}, None)
         if isinstance(f, tuple) and len(f) == 2 and f[0] == 'attrgetter':
-            return h.getattr(args[0], f[1], None) if isinstance(args[0], Ref) else self.ev(
-                ast.fix_missing_locations(ast.Attribute(value=ast.Name(id='#a0', ctx=ast.Load()), attr=f[1], ctx=ast.Load())), {'#a0': args[0]}, None)
+            # (the attribute as the expression `a0.name` reads it: properties and class-level tables included)
+            return self.ev(ast.fix_missing_locations(ast.Attribute(value=ast.Name(id='#a0', ctx=ast.Load()), attr=f[1], ctx=ast.Load())), {'#a0': args[0]}, None)
         if isinstance(f, tuple) and len(f) == 2 and f[0] == 'class' and isinstance(f[1], str):
             # a class object that travelled through a local / a table before being called
             if f[1] in h.hooks:
@@ -3135,7 +3197,7 @@ class Interp:
             broke = False
             while self.truth(self.ev(st.test, env, cls)):
                 n += 1
-                if n > 64:
+                if n > 4096:
                     raise AnalysisError('heap model: loop bound exceeded at line %d' % st.lineno)
                 r = self.run(st.body, env, cls)
                 if r is not None:
